@@ -74,6 +74,10 @@ type Opts struct {
 	ModeFunc bool
 	// UnnamedFiles: now and then a file is added under the empty name
 	UnnamedFiles bool
+	// ParamNamedLocals: most value lets are named like a pool param (of the let's type) that the
+	// template itself does not declare, so that a binding left behind by one render meets a param of
+	// that name in another template
+	ParamNamedLocals bool
 	// Focus names one rarely generated construct that most templates of this case will contain
 	// (swarm testing: every run concentrates on one feature, so that rare features meet the
 	// schedules, histories and faults too).  "" = none; see Features.
@@ -552,6 +556,14 @@ func (x *g) node(depth int) *Node {
 	case k < 74:
 		name := x.fresh("l")
 		t := printable[x.pick(len(printable))]
+		if x.o.ParamNamedLocals && x.chance(0.7) {
+			for _, pv := range pool {
+				if pv.t == t && !x.inScope(pv.name) {
+					name = pv.name
+					break
+				}
+			}
+		}
 		n := &Node{K: "letv", Var: name, E: x.expr(t, 2)}
 		x.scope = append(x.scope, svar{ref: "$" + name, t: t, root: name})
 		return n
@@ -731,6 +743,11 @@ func (x *g) msg() *Node {
 }
 
 func (x *g) msg0() *Node {
+	if x.o.MsgHeavy && x.chance(0.12) {
+		// one of very few short texts under one of three meanings: the same text under different
+		// meanings in different files of the bundle
+		return &Node{K: "msg", S: "a short label", M: []string{"", "noun", "verb"}[x.pick(3)], Body: []*Node{{K: "text", S: []string{"Save", "Open"}[x.pick(2)]}}}
+	}
 	n := &Node{K: "msg", S: []string{"", "a description", "other desc", "verb|noun", "50% off: a=b \"q\""}[x.pick(5)]}
 	if x.chance(0.25) {
 		n.M = []string{"noun", "verb"}[x.pick(2)]
